@@ -15,7 +15,9 @@ def random_facts(rng, S, nworlds=None, nconsts=None, identity=None):
     """A list of API calls: ('atom', atom, value, world) | ('pred', pred, params, value, world) |
     ('opaque', sentence, value, world) | ('literal', sentence, value, world) | ('access', w1, w2)."""
     V = S.values
-    worlds = list(range(rng.randint(1, 3) if nworlds is None else nworlds)) if S.modal else [0]
+    if nworlds is None:
+        nworlds = rng.randint(1, 3) if rng.random() < 0.75 else rng.randint(4, 6)      # "random larger"
+    worlds = list(range(nworlds)) if S.modal else [0]
     consts = CONSTS[:rng.randint(0, 3) if nconsts is None else nconsts]
     facts = []
     for w in worlds:
@@ -74,10 +76,30 @@ def random_facts(rng, S, nworlds=None, nconsts=None, identity=None):
         if not S.modal and rng.random() < 0.5:
             facts.append(('opaque', syn.op('Possibility', A_), rng.choice(V), w))
     if S.modal:
-        for w1 in worlds:
-            for w2 in worlds:
-                if rng.random() < 0.35:
-                    facts.append(('access', w1, w2))
+        if len(worlds) <= 3:
+            for w1 in worlds:
+                for w2 in worlds:
+                    if rng.random() < 0.35:
+                        facts.append(('access', w1, w2))
+        else:
+            # sparse relations: a path through a random order of the worlds plus a few extra pairs,
+            # emitted in path order, reversed or shuffled (the closure must not depend on it)
+            order = list(worlds)
+            rng.shuffle(order)
+            if rng.random() < 0.5:
+                order = sorted(order, reverse=rng.random() < 0.3)
+            pairs = [(a_, b_) for a_, b_ in zip(order, order[1:]) if rng.random() < 0.9]
+            pairs += [(rng.choice(worlds), rng.choice(worlds)) for _ in range(rng.randint(0, 3))]
+            style = rng.random()
+            if style < 0.3:
+                pairs.reverse()
+            elif style < 0.6:
+                rng.shuffle(pairs)
+            seen = set()
+            for pr in pairs:
+                if pr not in seen:
+                    seen.add(pr)
+                    facts.append(('access',) + pr)
     return facts, worlds, consts
 
 
